@@ -109,6 +109,9 @@ func (s *sampler) floatK() (k, sp string) {
 		f64FromBits(1), f64Key(math.MaxFloat64), f64Key(math.Inf(1)), f64Key(math.Inf(-1)),
 		f64Key(float64(math.Float32frombits(0x7f7fffff))), f64Key(float64(math.Float32frombits(0x3f810000))), // bfloat16 exact
 		"qnan", "snan", f64Key(9007199254740993), f64Key(1e15), f64Key(65536),
+		// just beside the bfloat16 grid: the float32 bits below the 16-bit cut are 0x8000, 0x0001, 0x7fff, 0xffff
+		f64Key(float64(math.Float32frombits(0x3f808000))), f64Key(float64(math.Float32frombits(0xc2c88000))), f64Key(float64(math.Float32frombits(0x3f800001))),
+		f64Key(float64(math.Float32frombits(0x3f807fff))), f64Key(float64(math.Float32frombits(0x3f80ffff))),
 	}
 	i := s.pick("float", len(fixed)+3)
 	if i < len(fixed) {
@@ -177,7 +180,7 @@ func (s *sampler) uidK() string {
 var stringSamples = []string{
 	"a", "", "hello world", "0123456789abcde", "0123456789abcdef", "0123456789abcdefg", strings.Repeat("x", 127), strings.Repeat("y", 128), strings.Repeat("z", 300),
 	"quote\"back\\slash", "tab\tlf\ncr\r", "é", "€", "😀", "a b­c", "  ", "\ufeffbom", "*/ /* //", "ends with space ", "\u0001\u007f\u0080\u009f",
-	"\U0010ffff", "private", "combining é", "https://example.com/a?b=c#d", "c0", "@x", "&a:1", "$a", "-1", "true", "null", "1.5", "2000-01-01",
+	"\U0010ffff", "q\"x\nabc", "\\\n\u0085\u2028tail", "private", "combining é", "https://example.com/a?b=c#d", "c0", "@x", "&a:1", "$a", "-1", "true", "null", "1.5", "2000-01-01",
 }
 
 func (s *sampler) strBytes(class string, idx int) []int {
@@ -219,6 +222,19 @@ func (s *sampler) arraySample() (at string, count int, data []int) {
 	}
 	if at == "abit" && count%8 != 0 && nb > 0 {
 		data[nb-1] &= (1 << uint(count%8)) - 1 // trailing upper bits cleared (events.go contract)
+	}
+	// float arrays: infinities of both signs, NaNs, negative zero among the elements
+	if w := map[string]int{"af16": 2, "af32": 4, "af64": 8}[at]; w > 0 && count > 0 {
+		specials := map[string][][]int{
+			"af16": {{0x80, 0x7f}, {0x80, 0xff}, {0xc0, 0x7f}, {0x00, 0x80}},
+			"af32": {{0, 0, 0x80, 0x7f}, {0, 0, 0x80, 0xff}, {0, 0, 0xc0, 0x7f}, {0, 0, 0, 0x80}},
+			"af64": {{0, 0, 0, 0, 0, 0, 0xf0, 0x7f}, {0, 0, 0, 0, 0, 0, 0xf0, 0xff}, {0, 0, 0, 0, 0, 0, 0xf8, 0x7f}, {0, 0, 0, 0, 0, 0, 0, 0x80}},
+		}[at]
+		for e := 0; e < count; e++ {
+			if s.rnd.Intn(3) == 0 {
+				copy(data[e*w:], specials[s.rnd.Intn(len(specials))])
+			}
+		}
 	}
 	return
 }
